@@ -1535,3 +1535,737 @@ example :
 end Ex
 
 end L2D
+
+
+/-! # Saving / restoring (C13) and order independence of the bookkeeping (C11)
+
+Model: `getData`, `setData`, `restoreFile`, `getState`, `setState` at the end of `AdaptiveModel/L2D.lean`.  All statements are for
+every configuration, every state (reachable or not unless said otherwise), every oracle. -/
+namespace L2D
+variable {V L α : Type}
+
+/-! ## H. C13: saving / restoring -/
+
+/-- the stack of a fresh learner: the corner points at `inf` (first occurrences, in corner order) -/
+def initStack (c : Cfg L) : List (Nat × L) := c.corners.foldl (fun st p => aset st p c.inf) []
+
+@[simp] theorem init_stack (c : Cfg L) : (init c : State V L).stack = initStack c := rfl
+@[simp] theorem init_data (c : Cfg L) : (init c : State V L).data = [] := rfl
+@[simp] theorem init_pending (c : Cfg L) : (init c : State V L).pending = [] := rfl
+
+/-- the stack of a learner restored from the data `d`: the fresh stack without the points that have a value -/
+def cornerStack (c : Cfg L) (d : List (Nat × V)) : List (Nat × L) :=
+  (initStack c).filter (fun e => !hasKey d e.1)
+
+theorem setData_loop (d : List (Nat × V)) (l st : List (Nat × L)) :
+    l.foldl (fun st e => if hasKey d e.1 then apop st e.1 else st) st =
+      st.filter (fun e => !(hasKey d e.1 && (keys l).contains e.1)) := by
+  induction l generalizing st with
+  | nil => simp
+  | cons a t ih =>
+    simp only [List.foldl_cons]
+    rw [ih]
+    by_cases ha : hasKey d a.1 = true
+    · simp only [ha, if_true, apop, List.filter_filter]
+      apply List.filter_congr
+      intro e _
+      by_cases hea : e.1 = a.1
+      · simp [hea, ha]
+      · simp [hea, keys_cons]
+    · simp only [ha]
+      apply List.filter_congr
+      intro e _
+      by_cases hea : e.1 = a.1
+      · simp [hea, ha]
+      · simp [hea, keys_cons]
+
+/-- `_set_data`: exactly the stack entries whose point has a value in the new data are popped -/
+theorem setData_stack (c : Cfg L) (s : State V L) (d : List (Nat × V)) :
+    (setData c s d).stack = s.stack.filter (fun e => !hasKey d e.1) := by
+  show s.stack.foldl (fun st e => if hasKey d e.1 then apop st e.1 else st) s.stack = _
+  rw [setData_loop]
+  apply List.filter_congr
+  intro e he
+  have : e.1 ∈ keys s.stack := mem_keys_of_mem he
+  simp [this]
+
+@[simp] theorem setData_data (c : Cfg L) (s : State V L) (d : List (Nat × V)) : (setData c s d).data = d := rfl
+@[simp] theorem setData_pending (c : Cfg L) (s : State V L) (d : List (Nat × V)) :
+    (setData c s d).pending = s.pending := rfl
+
+theorem restoreFile_eq (c : Cfg L) (d : List (Nat × V)) :
+    restoreFile c d = { data := d, pending := [], stack := cornerStack c d } := by
+  have h := setData_stack c (init c) d
+  unfold restoreFile
+  cases hs : setData c (init c) d with
+  | mk dd pp ss =>
+    have h1 : dd = d := by have := setData_data c (init c) d; rw [hs] at this; exact this
+    have h2 : pp = [] := by have := setData_pending c (init c) d; rw [hs] at this; exact this
+    have h3 : ss = cornerStack c d := by rw [hs] at h; exact h
+    rw [h1, h2, h3]
+
+theorem initStack_eq_map (c : Cfg L) (hnd : c.corners.Nodup) : initStack c = c.corners.map (fun p => (p, c.inf)) := by
+  have h := foldl_aset_nodup (c.corners.map (fun p => (p, c.inf))) [] (by
+    simpa [keys, List.map_map, Function.comp_def] using hnd)
+  rw [List.foldl_map] at h
+  simpa [initStack] using h
+
+/-- with pairwise distinct corners the restored stack is: the corners that have no value, at `inf`, in corner order -/
+theorem cornerStack_eq (c : Cfg L) (hnd : c.corners.Nodup) (d : List (Nat × V)) :
+    cornerStack c d = (c.corners.filter (fun p => !hasKey d p)).map (fun p => (p, c.inf)) := by
+  unfold cornerStack
+  rw [initStack_eq_map c hnd, List.filter_map]
+  rfl
+
+theorem mem_keys_initStack (c : Cfg L) (p : Nat) : p ∈ keys (initStack c) ↔ p ∈ c.corners := by
+  unfold initStack
+  suffices ∀ st : List (Nat × L), p ∈ keys (c.corners.foldl (fun st p => aset st p c.inf) st) ↔
+      p ∈ keys st ∨ p ∈ c.corners by simpa using this []
+  generalize c.corners = l
+  induction l with
+  | nil => intro st; simp
+  | cons a t ih => intro st; simp only [List.foldl_cons, ih, mem_keys_aset, List.mem_cons]; tauto
+
+theorem initStack_values (c : Cfg L) : ∀ e ∈ initStack c, e.2 = c.inf := by
+  unfold initStack
+  suffices ∀ st : List (Nat × L), (∀ e ∈ st, e.2 = c.inf) →
+      ∀ e ∈ c.corners.foldl (fun st p => aset st p c.inf) st, e.2 = c.inf from this [] (by simp)
+  generalize c.corners = l
+  induction l with
+  | nil => intro st h; exact h
+  | cons a t ih =>
+    intro st h
+    simp only [List.foldl_cons]
+    apply ih
+    intro e he
+    clear ih
+    induction st with
+    | nil => simp [aset] at he; rw [he]
+    | cons x xs ih2 =>
+      obtain ⟨k', v'⟩ := x
+      simp only [aset] at he
+      split at he
+      · simp only [List.mem_cons] at he
+        rcases he with rfl | he
+        · rfl
+        · exact h e (List.mem_cons_of_mem _ he)
+      · simp only [List.mem_cons] at he
+        rcases he with rfl | he
+        · exact h _ List.mem_cons_self
+        · exact ih2 (fun e he => h e (List.mem_cons_of_mem _ he)) he
+
+/-- in general (corners possibly repeated): the restored stack holds exactly the corners without a value, all at `inf`,
+one entry per point -/
+theorem cornerStack_spec (c : Cfg L) (d : List (Nat × V)) :
+    (∀ p, p ∈ keys (cornerStack c d) ↔ p ∈ c.corners ∧ p ∉ keys d) ∧ (∀ e ∈ cornerStack c d, e.2 = c.inf) ∧
+    (keys (cornerStack c d)).Nodup := by
+  refine ⟨fun p => ?_, fun e he => initStack_values c e (List.mem_of_mem_filter he), ?_⟩
+  · unfold cornerStack
+    rw [← mem_keys_initStack (L := L) c p]
+    simp only [keys, List.mem_map, List.mem_filter]
+    constructor
+    · rintro ⟨e, ⟨he, hk⟩, rfl⟩
+      refine ⟨⟨e, he, rfl⟩, fun hd => ?_⟩
+      have := (hasKey_iff d e.1).2 (by simpa [keys] using hd)
+      simp [this] at hk
+    · rintro ⟨⟨e, he, rfl⟩, hd⟩
+      refine ⟨e, ⟨he, ?_⟩, rfl⟩
+      have : hasKey d e.1 ≠ true := fun h => hd (by simpa [keys] using (hasKey_iff d e.1).1 h)
+      simpa using this
+  · unfold cornerStack
+    have h0 : (keys (initStack c)).Nodup := (inv0_init (V := V) c).stackNodup
+    rw [keys] at h0 ⊢
+    exact (List.Sublist.map _ List.filter_sublist).nodup h0
+
+/-- **C13 (file / copy_from)** a learner restored from the saved data holds the SAME data (keys, values and order) and the
+same `npoints`; nothing is pending; its stack is `cornerStack` (the corners without a value at `inf`: `cornerStack_eq`,
+`cornerStack_spec`) -/
+theorem l2d_file_roundtrip_data (c : Cfg L) (s : State V L) :
+    (restoreFile c (getData s)).data = s.data ∧ npoints (restoreFile c (getData s)) = npoints s ∧
+    (restoreFile c (getData s)).pending = [] ∧ (restoreFile c (getData s)).stack = cornerStack c s.data := by
+  rw [restoreFile_eq]; exact ⟨rfl, rfl, rfl, rfl⟩
+
+/-- `__setstate__(__getstate__())`: the same learner with an emptied pending set -/
+theorem setState_getState (c : Cfg L) (s : State V L) : setState c (getState s) = { s with pending := [] } := rfl
+
+/-- **C13 (pickle)** the unpickled learner has the same data and the same stack, and an empty pending set; so when nothing
+was pending it IS the original (equal states) -/
+theorem l2d_pickle_roundtrip (c : Cfg L) (s : State V L) :
+    (setState c (getState s)).data = s.data ∧ (setState c (getState s)).stack = s.stack ∧
+    (setState c (getState s)).pending = [] ∧ npoints (setState c (getState s)) = npoints s ∧
+    (s.pending = [] → setState c (getState s) = s) := by
+  refine ⟨rfl, rfl, rfl, rfl, fun h => ?_⟩
+  rw [setState_getState]; cases s; simp_all
+
+/-- … hence every later state and every later answer agree, for every continuation and every oracle -/
+theorem l2d_pickle_same_future (c : Cfg L) (s : State V L) (hp : s.pending = []) (ops : List (Op V L)) :
+    run c (setState c (getState s)) ops = run c s ops ∧
+    ∀ (cands : Oracle V L) n commit,
+      ask c cands (run c (setState c (getState s)) ops) n commit = ask c cands (run c s ops) n commit := by
+  rw [(l2d_pickle_roundtrip c s).2.2.2.2 hp]; exact ⟨rfl, fun _ _ _ => rfl⟩
+
+/-- … along histories: a history from a fresh learner that ends with nothing pending -/
+theorem l2d_pickle_same_future_reach (c : Cfg L) (h ops : List (Op V L)) (hp : (run c (init c) h).pending = []) :
+    run c (setState c (getState (run c (init c) h))) ops = run c (init c) (h ++ ops) := by
+  rw [run_append]; exact (l2d_pickle_same_future c _ hp ops).1
+
+/-- **C13 (file / copy_from), exact difference**: with nothing pending the restored learner is the original with its stack
+replaced by `cornerStack` - nothing else differs -/
+theorem l2d_file_restore_vs_original (c : Cfg L) (s : State V L) (hp : s.pending = []) :
+    restoreFile c (getData s) = { s with stack := cornerStack c s.data } := by
+  rw [restoreFile_eq]; cases s; simp_all [getData]
+
+/-- the file restore reproduces the learner exactly iff nothing is pending and the stack is the corner stack -/
+theorem restoreFile_eq_self_iff (c : Cfg L) (s : State V L) :
+    restoreFile c (getData s) = s ↔ s.pending = [] ∧ s.stack = cornerStack c s.data := by
+  rw [restoreFile_eq]
+  cases s with
+  | mk d p st =>
+    simp only [getData, State.mk.injEq, true_and]
+    constructor
+    · rintro ⟨h1, h2⟩; exact ⟨h1.symm, h2.symm⟩
+    · rintro ⟨h1, h2⟩; exact ⟨h1.symm, h2.symm⟩
+
+/-! ### when does the file restore reproduce the learner exactly? -/
+
+theorem filter_aset_pass (P : Nat → Bool) (st : List (Nat × L)) (k : Nat) (v : L) (hk : P k = true) :
+    (aset st k v).filter (fun e => P e.1) = aset (st.filter (fun e => P e.1)) k v := by
+  induction st with
+  | nil => simp [aset, hk]
+  | cons x xs ih =>
+    obtain ⟨k', v'⟩ := x
+    simp only [aset]
+    split
+    · rename_i h; subst h; simp [hk, aset]
+    · rename_i h
+      by_cases hp : P k' = true
+      · simp [hp, aset, h, ih]
+      · simp [hp, ih]
+
+theorem filter_aset_fail (P : Nat → Bool) (st : List (Nat × L)) (k : Nat) (v : L) (hk : P k = false) :
+    (aset st k v).filter (fun e => P e.1) = st.filter (fun e => P e.1) := by
+  induction st with
+  | nil => simp [aset, hk]
+  | cons x xs ih =>
+    obtain ⟨k', v'⟩ := x
+    simp only [aset]
+    split
+    · rename_i h; subst h; simp [hk]
+    · simp [List.filter_cons, ih]
+
+/-- the loop of `remove_unfinished` on a filtered stack is the filtered loop of `__init__` -/
+theorem removeUnfinished_loop (d : List (Nat × V)) (x : L) (l : List Nat) (st : List (Nat × L)) :
+    l.foldl (fun st p => if hasKey d p then st else aset st p x) (st.filter (fun e => !hasKey d e.1)) =
+      (l.foldl (fun st p => aset st p x) st).filter (fun e => !hasKey d e.1) := by
+  induction l generalizing st with
+  | nil => rfl
+  | cons a t ih =>
+    simp only [List.foldl_cons]
+    rw [← ih]
+    by_cases ha : hasKey d a = true
+    · rw [if_pos ha, filter_aset_fail (fun k => !hasKey d k) st a x (by simp [ha])]
+    · rw [if_neg ha, filter_aset_pass (fun k => !hasKey d k) st a x (by simpa using ha)]
+
+/-- `remove_unfinished` on a learner whose stack has been consumed leaves exactly the corner stack -/
+theorem removeUnfinished_stack_of_empty (c : Cfg L) (s : State V L) (h : s.stack = []) :
+    (removeUnfinished c s).stack = cornerStack c s.data := by
+  show c.corners.foldl (fun st p => if hasKey s.data p then st else aset st p c.inf) s.stack = _
+  rw [h]
+  exact removeUnfinished_loop s.data c.inf c.corners []
+
+/-- **what a file restore is, for EVERY state**: forget the suggestion stack and the pending set, then `remove_unfinished` -/
+theorem restoreFile_eq_removeUnfinished (c : Cfg L) (s : State V L) :
+    restoreFile c (getData s) = removeUnfinished c { s with stack := [], pending := [] } := by
+  rw [restoreFile_eq]
+  have := removeUnfinished_stack_of_empty c ({ s with stack := [], pending := [] } : State V L) rfl
+  cases hs : removeUnfinished c ({ s with stack := [], pending := [] } : State V L) with
+  | mk dd pp ss =>
+    rw [hs] at this
+    have h1 : dd = s.data := by have : (removeUnfinished c ({ s with stack := [], pending := [] } : State V L)).data = s.data := rfl
+                                rw [hs] at this; exact this
+    have h2 : pp = [] := by have : (removeUnfinished c ({ s with stack := [], pending := [] } : State V L)).pending = [] := rfl
+                            rw [hs] at this; exact this
+    simp only at this
+    rw [h1, h2, this]; rfl
+
+/-- **positive statement 1**: right after `remove_unfinished` on a learner whose stack was consumed, the file restore IS the
+learner (equal states) -/
+theorem restoreFile_after_removeUnfinished (c : Cfg L) (s : State V L) (h : s.stack = []) :
+    restoreFile c (getData (removeUnfinished c s)) = removeUnfinished c s :=
+  (restoreFile_eq_self_iff c _).2 ⟨rfl, removeUnfinished_stack_of_empty c s h⟩
+
+theorem aget_of_values {st : List (Nat × L)} {x : L} (hv : ∀ e ∈ st, e.2 = x) {p : Nat} (hp : p ∈ keys st) :
+    aget st p = some x := by
+  induction st with
+  | nil => simp at hp
+  | cons e t ih =>
+    obtain ⟨k', v'⟩ := e
+    simp only [aget]
+    split
+    · have := hv (k', v') List.mem_cons_self; simp at this; rw [this]
+    · rename_i h
+      simp only [keys_cons, List.mem_cons] at hp
+      rcases hp with hp | hp
+      · exact absurd hp.symm h
+      · exact ih (fun e he => hv e (List.mem_cons_of_mem _ he)) hp
+
+theorem hasKey_aset (d : List (Nat × V)) (p : Nat) (v : V) (k : Nat) :
+    hasKey (aset d p v) k = (k == p || hasKey d k) := by
+  rw [Bool.eq_iff_iff]
+  simp only [hasKey_iff, mem_keys_aset, Bool.or_eq_true, beq_iff_eq]
+
+/-- the stack is the corner stack of the data and nothing is pending -/
+def CornerInv (c : Cfg L) (s : State V L) : Prop := s.pending = [] ∧ s.stack = cornerStack c s.data
+
+theorem cornerInv_init (c : Cfg L) : CornerInv c (init c : State V L) := by
+  refine ⟨rfl, ?_⟩
+  simp [cornerStack, hasKey]
+
+theorem cornerInv_tell {c : Cfg L} (hcor : ∀ p ∈ c.corners, c.inB p = true) {s : State V L} (h : CornerInv c s)
+    (p : Nat) (v : V) : CornerInv c (tell c s p v) := by
+  obtain ⟨hp, hs⟩ := h
+  unfold tell
+  by_cases hb : c.inB p = true
+  · rw [if_pos hb]
+    refine ⟨by simp [hp, pdiscard], ?_⟩
+    show apop s.stack p = cornerStack c (aset s.data p v)
+    rw [hs, cornerStack, cornerStack, apop, List.filter_filter]
+    apply List.filter_congr
+    intro e _
+    rw [hasKey_aset]
+    by_cases he : e.1 = p <;> simp [he, bne]
+  · rw [if_neg hb]
+    refine ⟨hp, ?_⟩
+    show s.stack = cornerStack c (aset s.data p v)
+    rw [hs, cornerStack, cornerStack]
+    apply List.filter_congr
+    intro e he
+    rw [hasKey_aset]
+    have : e.1 ≠ p := by
+      intro h
+      exact hb (h ▸ hcor e.1 ((mem_keys_initStack c e.1).1 (mem_keys_of_mem he)))
+    simp [this]
+
+theorem cornerInv_removeUnfinished {c : Cfg L} {s : State V L} (h : s.stack = cornerStack c s.data) :
+    CornerInv c (removeUnfinished c s) := by
+  refine ⟨rfl, ?_⟩
+  show c.corners.foldl (fun st p => if hasKey s.data p then st else aset st p c.inf) s.stack = cornerStack c s.data
+  rw [h, cornerStack, removeUnfinished_loop]
+  congr 1
+  -- assigning `inf` to the corners again leaves the fresh stack as it is
+  suffices ∀ l : List Nat, (∀ p ∈ l, p ∈ c.corners) →
+      l.foldl (fun st p => aset st p c.inf) (initStack c) = initStack c from this _ (fun _ h => h)
+  intro l
+  induction l with
+  | nil => intro _; rfl
+  | cons a t ih =>
+    intro hl
+    simp only [List.foldl_cons]
+    rw [aset_same (aget_of_values (initStack_values c) ((mem_keys_initStack c a).2 (hl a List.mem_cons_self)))]
+    exact ih (fun p hp => hl p (List.mem_cons_of_mem _ hp))
+
+/-- operations that only feed data: `tell` (hence `tell_many`) and `remove_unfinished` -/
+def DataOnly : Op V L → Prop
+  | .tell _ _ => True
+  | .removeUnfinished => True
+  | _ => False
+
+theorem cornerInv_run {c : Cfg L} (hcor : ∀ p ∈ c.corners, c.inB p = true) {s : State V L} (h : CornerInv c s)
+    (ops : List (Op V L)) (hops : ∀ op ∈ ops, DataOnly op) : CornerInv c (run c s ops) := by
+  induction ops generalizing s with
+  | nil => exact h
+  | cons op ops ih =>
+    refine ih ?_ (fun o ho => hops o (List.mem_cons_of_mem _ ho))
+    have hop := hops op List.mem_cons_self
+    cases op with
+    | tell p v => exact cornerInv_tell hcor h p v
+    | removeUnfinished => exact cornerInv_removeUnfinished h.2
+    | tellPending p => exact absurd hop id
+    | ask n commit cands => exact absurd hop id
+
+/-- **positive statement 2** (corners inside the bounds): a learner that has only ever been TOLD results (in any order, in or
+out of bounds, re-tells, `remove_unfinished`) - e.g. one that was itself loaded from a file - is reproduced EXACTLY by a file
+restore, and by induction so is every learner in a chain of such restores -/
+theorem restoreFile_dataOnly (c : Cfg L) (hcor : ∀ p ∈ c.corners, c.inB p = true) (ops : List (Op V L))
+    (hops : ∀ op ∈ ops, DataOnly op) :
+    restoreFile c (getData (run c (init c) ops)) = run c (init c) ops :=
+  (restoreFile_eq_self_iff c _).2 (cornerInv_run hcor (cornerInv_init c) ops hops)
+
+/-- a file-restored learner satisfies `CornerInv`, so restoring it again (after any data-only continuation) is exact -/
+theorem cornerInv_restoreFile (c : Cfg L) (d : List (Nat × V)) : CornerInv c (restoreFile c d) := by
+  rw [restoreFile_eq]; exact ⟨rfl, rfl⟩
+
+/-! ## I. C11: the bookkeeping does not depend on the order in which results are told -/
+
+theorem tellMany_nil (c : Cfg L) (s : State V L) : tellMany c s [] = s := rfl
+theorem tellMany_cons (c : Cfg L) (s : State V L) (e : Nat × V) (t : List (Nat × V)) :
+    tellMany c s (e :: t) = tellMany c (tell c s e.1 e.2) t := rfl
+
+/-- `tell_many` is the history of its `tell`s -/
+theorem tellMany_eq_run (c : Cfg L) (s : State V L) (xs : List (Nat × V)) :
+    tellMany c s xs = run c s (xs.map fun e => (Op.tell e.1 e.2 : Op V L)) := by
+  induction xs generalizing s with
+  | nil => rfl
+  | cons e t ih => rw [tellMany_cons, ih]; rfl
+
+/-- **C11, pending set** (every state, every list of tells, duplicates allowed): exactly the in-bounds told points are
+discarded - the resulting LIST does not depend on the order -/
+theorem tellMany_pending (c : Cfg L) (s : State V L) (xs : List (Nat × V)) :
+    (tellMany c s xs).pending = s.pending.filter (fun q => !(c.inB q && (keys xs).contains q)) := by
+  induction xs generalizing s with
+  | nil => simp [tellMany_nil]
+  | cons e t ih =>
+    rw [tellMany_cons, ih]
+    unfold tell
+    by_cases hb : c.inB e.1 = true
+    · simp only [hb, if_true, pdiscard, List.filter_filter]
+      apply List.filter_congr
+      intro q _
+      by_cases hq : q = e.1
+      · simp [hq, hb]
+      · simp [hq, keys_cons]
+    · simp only [hb]
+      apply List.filter_congr
+      intro q _
+      by_cases hq : q = e.1
+      · simp [hq, hb]
+      · simp [hq, keys_cons]
+
+/-- **C11, stack**: exactly the in-bounds told points are popped - the resulting stack (order and losses included) does not
+depend on the order of the tells -/
+theorem tellMany_stack (c : Cfg L) (s : State V L) (xs : List (Nat × V)) :
+    (tellMany c s xs).stack = s.stack.filter (fun e => !(c.inB e.1 && (keys xs).contains e.1)) := by
+  induction xs generalizing s with
+  | nil => simp [tellMany_nil]
+  | cons e t ih =>
+    rw [tellMany_cons, ih]
+    unfold tell
+    by_cases hb : c.inB e.1 = true
+    · simp only [hb, if_true, apop, List.filter_filter]
+      apply List.filter_congr
+      intro q _
+      by_cases hq : q.1 = e.1
+      · simp [hq, hb]
+      · simp [hq, keys_cons]
+    · simp only [hb]
+      apply List.filter_congr
+      intro q _
+      by_cases hq : q.1 = e.1
+      · simp [hq, hb]
+      · simp [hq, keys_cons]
+
+theorem tellMany_data (c : Cfg L) (s : State V L) (xs : List (Nat × V)) :
+    (tellMany c s xs).data = xs.foldl (fun d e => aset d e.1 e.2) s.data := by
+  induction xs generalizing s with
+  | nil => rfl
+  | cons e t ih => rw [tellMany_cons, ih, tell_data]; rfl
+
+/-- a point that is not told keeps its value -/
+theorem aget_tellMany_of_not_mem (c : Cfg L) (s : State V L) (xs : List (Nat × V)) {p : Nat} (hp : p ∉ keys xs) :
+    aget (tellMany c s xs).data p = aget s.data p := by
+  induction xs generalizing s with
+  | nil => rfl
+  | cons e t ih =>
+    simp only [keys_cons, List.mem_cons, not_or] at hp
+    rw [tellMany_cons, ih _ hp.2, tell_data, aget_aset_other _ _ hp.1]
+
+/-- distinct points: every told point holds the value it was told with -/
+theorem aget_tellMany_of_mem (c : Cfg L) (s : State V L) (xs : List (Nat × V)) (hnd : (keys xs).Nodup) {p : Nat} {v : V}
+    (hp : (p, v) ∈ xs) : aget (tellMany c s xs).data p = some v := by
+  induction xs generalizing s with
+  | nil => simp at hp
+  | cons e t ih =>
+    simp only [keys_cons, List.nodup_cons] at hnd
+    rw [tellMany_cons]
+    simp only [List.mem_cons] at hp
+    rcases hp with rfl | hp
+    · rw [aget_tellMany_of_not_mem c _ t hnd.1, tell_data, aget_aset_self]
+    · exact ih _ hnd.2 hp
+
+/-- **C11, data order**: the keys of `data` after telling pairwise distinct points are the old keys in their old order followed by
+the NEW points in the order they were told - this is where (and the only place where) the order of the tells shows -/
+theorem keys_tellMany (c : Cfg L) (s : State V L) (xs : List (Nat × V)) (hnd : (keys xs).Nodup) :
+    keys (tellMany c s xs).data = keys s.data ++ (keys xs).filter (fun p => !hasKey s.data p) := by
+  induction xs generalizing s with
+  | nil => simp [tellMany_nil]
+  | cons e t ih =>
+    simp only [keys_cons, List.nodup_cons] at hnd
+    rw [tellMany_cons, ih _ hnd.2, tell_data, keys_cons]
+    have hcongr : (keys t).filter (fun p => !hasKey (aset s.data e.1 e.2) p) =
+        (keys t).filter (fun p => !hasKey s.data p) := by
+      apply List.filter_congr
+      intro q hq
+      rw [hasKey_aset]
+      have : q ≠ e.1 := fun h => hnd.1 (h ▸ hq)
+      simp [this]
+    rw [hcongr]
+    by_cases hk : e.1 ∈ keys s.data
+    · rw [keys_aset_of_mem _ hk, List.filter_cons]
+      have : hasKey s.data e.1 = true := (hasKey_iff _ _).2 hk
+      simp [this]
+    · rw [aset_of_not_mem _ hk, keys_append, List.filter_cons]
+      have : hasKey s.data e.1 ≠ true := fun h => hk ((hasKey_iff _ _).1 h)
+      simp [this, keys]
+
+/-- membership in an association list with distinct keys is `aget` -/
+theorem mem_iff_aget {l : List (Nat × α)} (h : (keys l).Nodup) (k : Nat) (v : α) : (k, v) ∈ l ↔ aget l k = some v := by
+  induction l with
+  | nil => simp [aget]
+  | cons e t ih =>
+    obtain ⟨k', v'⟩ := e
+    simp only [keys_cons, List.nodup_cons] at h
+    simp only [List.mem_cons, Prod.mk.injEq, aget]
+    split
+    · rename_i hk; subst hk
+      constructor
+      · rintro (⟨-, rfl⟩ | hm)
+        · rfl
+        · exact absurd (mem_keys_of_mem hm) h.1
+      · intro hv; simp only [Option.some.injEq] at hv; exact Or.inl ⟨rfl, hv.symm⟩
+    · rename_i hk
+      rw [← ih h.2]
+      constructor
+      · rintro (⟨rfl, -⟩ | hm)
+        · exact absurd rfl hk
+        · exact hm
+      · exact Or.inr
+
+/-- two association lists with distinct keys that agree as maps are permutations of each other -/
+theorem perm_of_aget_eq {l₁ l₂ : List (Nat × α)} (h₁ : (keys l₁).Nodup) (h₂ : (keys l₂).Nodup)
+    (h : ∀ k, aget l₁ k = aget l₂ k) : l₁.Perm l₂ := by
+  rw [List.perm_ext_iff_of_nodup (List.Nodup.of_map _ h₁) (List.Nodup.of_map _ h₂)]
+  rintro ⟨k, v⟩
+  rw [mem_iff_aget h₁, mem_iff_aget h₂, h]
+
+theorem nodup_keys_tellMany (c : Cfg L) (s : State V L) (xs : List (Nat × V)) (h : (keys s.data).Nodup) :
+    (keys (tellMany c s xs).data).Nodup := by
+  rw [tellMany_data]
+  exact foldl_keys_nodup _ (fun st b hst => nodup_keys_aset hst _ _) xs _ h
+
+/-- **C11 (Learner2D bookkeeping)**: two lists of tells that are permutations of each other, with pairwise distinct points
+(inside the bounds or not), applied to the same state (ANY state: pending points and a filled stack allowed) give
+* the same `data` as a map (`aget` agrees everywhere), the same key set, the same `npoints`,
+* the same old part of `data` in the same order; only the newly inserted keys appear in told order (`keys_tellMany`),
+* the SAME pending list and the SAME stack (equal lists, losses included) - these two without the distinctness hypothesis. -/
+theorem l2d_tells_order_irrelevant (c : Cfg L) (s : State V L) {xs ys : List (Nat × V)} (hp : xs.Perm ys)
+    (hnd : (keys xs).Nodup) :
+    (∀ p, aget (tellMany c s xs).data p = aget (tellMany c s ys).data p) ∧
+    (∀ p, p ∈ keys (tellMany c s xs).data ↔ p ∈ keys (tellMany c s ys).data) ∧
+    npoints (tellMany c s xs) = npoints (tellMany c s ys) ∧
+    (keys (tellMany c s xs).data).take s.data.length = (keys (tellMany c s ys).data).take s.data.length ∧
+    (tellMany c s xs).pending = (tellMany c s ys).pending ∧
+    (tellMany c s xs).stack = (tellMany c s ys).stack := by
+  have hkp : (keys xs).Perm (keys ys) := hp.map _
+  have hnd' : (keys ys).Nodup := hkp.nodup_iff.1 hnd
+  have hmem : ∀ q, (keys xs).contains q = (keys ys).contains q := by
+    intro q; rw [Bool.eq_iff_iff]; simp [hkp.mem_iff]
+  have haget : ∀ p, aget (tellMany c s xs).data p = aget (tellMany c s ys).data p := by
+    intro p
+    by_cases hpx : p ∈ keys xs
+    · obtain ⟨e, he, rfl⟩ := List.mem_map.1 hpx
+      rw [aget_tellMany_of_mem c s xs hnd (v := e.2) he, aget_tellMany_of_mem c s ys hnd' (v := e.2) (hp.mem_iff.1 he)]
+    · rw [aget_tellMany_of_not_mem c s xs hpx, aget_tellMany_of_not_mem c s ys (fun h => hpx (hkp.mem_iff.2 h))]
+  have hkeys : ∀ p, p ∈ keys (tellMany c s xs).data ↔ p ∈ keys (tellMany c s ys).data := by
+    intro p
+    have h1 := aget_eq_none_iff (tellMany c s xs).data p
+    have h2 := aget_eq_none_iff (tellMany c s ys).data p
+    rw [haget p] at h1
+    constructor
+    · intro h; by_contra h'; exact (h1.1 (h2.2 h')) h
+    · intro h; by_contra h'; exact (h2.1 (h1.2 h')) h
+  refine ⟨haget, hkeys, ?_, ?_, ?_, ?_⟩
+  · have hl : (keys (tellMany c s xs).data).length = (keys (tellMany c s ys).data).length := by
+      rw [keys_tellMany c s xs hnd, keys_tellMany c s ys hnd', List.length_append, List.length_append]
+      congr 1
+      exact (hkp.filter _).length_eq
+    simpa [keys, npoints] using hl
+  · rw [keys_tellMany c s xs hnd, keys_tellMany c s ys hnd']
+    have : s.data.length = (keys s.data).length := by simp [keys]
+    rw [this, List.take_left, List.take_left]
+  · rw [tellMany_pending, tellMany_pending]
+    apply List.filter_congr; intro q _; rw [hmem]
+  · rw [tellMany_stack, tellMany_stack]
+    apply List.filter_congr; intro q _; rw [hmem]
+
+/-- … and when the keys of the starting `data` are distinct (every reachable state: `inv0_reach`) the two `data` are
+permutations of each other: the same (point, value) pairs -/
+theorem l2d_tells_data_perm (c : Cfg L) (s : State V L) (hs : (keys s.data).Nodup) {xs ys : List (Nat × V)}
+    (hp : xs.Perm ys) (hnd : (keys xs).Nodup) : (tellMany c s xs).data.Perm (tellMany c s ys).data :=
+  perm_of_aget_eq (nodup_keys_tellMany c s xs hs) (nodup_keys_tellMany c s ys hs)
+    (l2d_tells_order_irrelevant c s hp hnd).1
+
+/-- association lists with distinct keys, the same key list and the same values are equal -/
+theorem eq_of_keys_eq_of_aget_eq {l₁ l₂ : List (Nat × α)} (h₁ : (keys l₁).Nodup) (hk : keys l₁ = keys l₂)
+    (h : ∀ k, aget l₁ k = aget l₂ k) : l₁ = l₂ := by
+  induction l₁ generalizing l₂ with
+  | nil => cases l₂ with
+    | nil => rfl
+    | cons _ _ => simp at hk
+  | cons e t ih =>
+    cases l₂ with
+    | nil => simp at hk
+    | cons e' t' =>
+      obtain ⟨k, v⟩ := e
+      obtain ⟨k', v'⟩ := e'
+      simp only [keys_cons, List.cons.injEq] at hk
+      obtain ⟨rfl, hkt⟩ := hk
+      simp only [keys_cons, List.nodup_cons] at h₁
+      have hv := h k
+      simp only [aget, if_true, Option.some.injEq] at hv
+      subst hv
+      congr 1
+      apply ih h₁.2 hkt
+      intro q
+      by_cases hq : q = k
+      · subst hq
+        rw [(aget_eq_none_iff t q).2 h₁.1, (aget_eq_none_iff t' q).2 (hkt ▸ h₁.1)]
+      · have := h q
+        simpa [aget, Ne.symm hq] using this
+
+/-- **C11, when are the STATES equal?** when moreover the points that are new to `data` are told in the same relative order
+(in particular when every told point already has a value: re-evaluations commute) -/
+theorem l2d_tells_state_eq (c : Cfg L) (s : State V L) (hs : (keys s.data).Nodup) {xs ys : List (Nat × V)}
+    (hp : xs.Perm ys) (hnd : (keys xs).Nodup)
+    (hord : (keys xs).filter (fun p => !hasKey s.data p) = (keys ys).filter (fun p => !hasKey s.data p)) :
+    tellMany c s xs = tellMany c s ys := by
+  obtain ⟨haget, -, -, -, hpd, hst⟩ := l2d_tells_order_irrelevant c s hp hnd
+  have hnd' : (keys ys).Nodup := (hp.map _ : (keys xs).Perm (keys ys)).nodup_iff.1 hnd
+  have hd : (tellMany c s xs).data = (tellMany c s ys).data :=
+    eq_of_keys_eq_of_aget_eq (nodup_keys_tellMany c s xs hs)
+      (by rw [keys_tellMany c s xs hnd, keys_tellMany c s ys hnd', hord]) haget
+  cases h1 : tellMany c s xs
+  cases h2 : tellMany c s ys
+  rw [h1, h2] at hd hpd hst
+  simp_all
+
+theorem l2d_retells_order_irrelevant (c : Cfg L) (s : State V L) (hs : (keys s.data).Nodup) {xs ys : List (Nat × V)}
+    (hp : xs.Perm ys) (hnd : (keys xs).Nodup) (hold : ∀ p ∈ keys xs, p ∈ keys s.data) :
+    tellMany c s xs = tellMany c s ys := by
+  apply l2d_tells_state_eq c s hs hp hnd
+  have hkp : (keys xs).Perm (keys ys) := hp.map _
+  have e1 : (keys xs).filter (fun p => !hasKey s.data p) = [] := by
+    rw [List.filter_eq_nil_iff]; intro p hp'; simp [(hasKey_iff _ _).2 (hold p hp')]
+  have e2 : (keys ys).filter (fun p => !hasKey s.data p) = [] := by
+    rw [List.filter_eq_nil_iff]; intro p hp'; simp [(hasKey_iff _ _).2 (hold p (hkp.mem_iff.2 hp'))]
+  rw [e1, e2]
+
+/-! ## J. kernel-checked examples for H and I -/
+namespace Ex
+
+/-- a history that ends with NO pending points: five points asked for (the corners and point 4), all five told.  The second
+candidate of the `_fill_stack` call (point 5) is still on the private stack. -/
+def hist : List (Op Nat Nat) :=
+  [.ask 5 true fresh2, .tell 0 10, .tell 1 11, .tell 2 12, .tell 3 13, .tell 4 14]
+
+/-- the geometry "of the moment" used for the next ask -/
+def cur : Oracle Nat Nat := fun _ _ => [(8, 7)]
+
+/-- **finding: the suggestion stack is not carried by file restores** (`save`/`load`, `copy_from`).  The history ends with
+nothing pending; the restored learner has the same data - but the next `ask` answers DIFFERENTLY: the original serves the
+stale stack entry (5, computed before the five values were known), the restored learner asks the geometry.  The pickle
+round trip, which carries the stack, reproduces the original state exactly. -/
+theorem file_restore_drops_stack :
+    let s := run cfg (init cfg) hist
+    s.pending = [] ∧ s.stack = [(5, 40)] ∧
+    (restoreFile cfg (getData s)).data = s.data ∧ (restoreFile cfg (getData s)).stack = [] ∧
+    restoreFile cfg (getData s) ≠ s ∧
+    (ask cfg cur s 1 true).2 = .ok [(5, 40)] ∧
+    (ask cfg cur (restoreFile cfg (getData s)) 1 true).2 = .ok [(8, 7)] ∧
+    setState cfg (getState s) = s ∧
+    (ask cfg cur (setState cfg (getState s)) 1 true).2 = .ok [(5, 40)] := by decide
+
+/-- the same after a NON-committing ask (nothing pending, nothing told): the restored stack holds the corners only -/
+example :
+    let s := (ask cfg fresh2 (init cfg) 5 false).1
+    s.pending = [] ∧ s.stack = [(0, 1000), (1, 1000), (2, 1000), (3, 1000), (4, 50), (5, 40)] ∧
+    (restoreFile cfg (getData s)).stack = [(0, 1000), (1, 1000), (2, 1000), (3, 1000)] ∧
+    restoreFile cfg (getData s) = init cfg := by decide
+
+/-- the restored stack: the corners WITHOUT a value, in corner order, at `inf` -/
+example : cornerStack cfg [(7, 1), (2, 5), (0, 5)] = [(1, 1000), (3, 1000)] := by decide
+
+/-- `cornerStack_eq` needs pairwise distinct corners: a repeated corner is queued once -/
+example :
+    let c : Cfg Nat := { cfg with corners := [0, 0, 1] }
+    cornerStack c ([] : List (Nat × Nat)) = [(0, 1000), (1, 1000)] ∧
+    (c.corners.filter (fun p => !hasKey ([] : List (Nat × Nat)) p)).map (fun p => (p, c.inf)) =
+      [(0, 1000), (0, 1000), (1, 1000)] := by decide
+
+/-- **outside the property's proviso (points pending)**: pickling while the four corners are being evaluated loses them
+altogether - `__getstate__` carries neither the pending set nor (any more) the corners on the stack.  The unpickled learner
+reports `bounds_are_done`, has no data, and its `ask` raises "too few points". The file restore of the same learner re-queues
+the corners (it is a fresh learner). -/
+theorem pickle_with_pending_corners_loses_them :
+    let s' : State Nat Nat := setState cfg (getState s4)
+    s4.pending = [0, 1, 2, 3] ∧ s' = { data := [], pending := [], stack := [] } ∧ boundsAreDone cfg s' = true ∧
+    (ask cfg fresh2 s' 1 true).2 = .tooFew ∧ restoreFile cfg (getData s4) = init cfg := by decide
+
+/-- **positive statement 1 is not vacuous**: stack consumed, some results in, `remove_unfinished`, then save/load: equal -/
+example :
+    let s := tell cfg (tell cfg s4 0 10) 2 12
+    s.stack = [] ∧ s.pending = [1, 3] ∧
+    restoreFile cfg (getData (removeUnfinished cfg s)) = removeUnfinished cfg s ∧
+    (removeUnfinished cfg s).stack = [(1, 1000), (3, 1000)] := by decide
+
+example :
+    let s := tell cfg (tell cfg s4 0 10) 2 12
+    restoreFile cfg (getData (removeUnfinished cfg s)) = removeUnfinished cfg s :=
+  restoreFile_after_removeUnfinished cfg _ (by decide)
+
+/-- … and it needs the consumed stack: with a stale entry left the states differ -/
+example :
+    let s := run cfg (init cfg) hist
+    removeUnfinished cfg s = s ∧ restoreFile cfg (getData (removeUnfinished cfg s)) ≠ removeUnfinished cfg s := by decide
+
+/-- **positive statement 2 is not vacuous**: a learner that was only told data (in and out of bounds, a re-tell, a corner) -/
+example :
+    let ops : List (Op Nat Nat) := [.tell 7 1, .tell 200 2, .tell 2 3, .removeUnfinished, .tell 7 4]
+    (∀ op ∈ ops, DataOnly op) ∧ restoreFile cfg (getData (run cfg (init cfg) ops)) = run cfg (init cfg) ops ∧
+    (run cfg (init cfg) ops).data = [(7, 4), (200, 2), (2, 3)] ∧
+    (run cfg (init cfg) ops).stack = [(0, 1000), (1, 1000), (3, 1000)] := by
+  have hops : ∀ op ∈ ([.tell 7 1, .tell 200 2, .tell 2 3, .removeUnfinished, .tell 7 4] : List (Op Nat Nat)),
+      DataOnly op := by
+    intro op hop
+    simp only [List.mem_cons, List.not_mem_nil, or_false] at hop
+    rcases hop with rfl | rfl | rfl | rfl | rfl <;> trivial
+  exact ⟨hops, restoreFile_dataOnly cfg (by decide) _ hops, by decide, by decide⟩
+
+/-- positive statement 2 needs the corners inside the bounds: a corner outside is never popped by `tell` but is by `_set_data` -/
+example :
+    let c : Cfg Nat := { cfg with corners := [0, 1, 2, 300] }
+    let s := tell c (init c) 300 5
+    s.stack = [(0, 1000), (1, 1000), (2, 1000), (300, 1000)] ∧
+    (restoreFile c (getData s)).stack = [(0, 1000), (1, 1000), (2, 1000)] := by decide
+
+/-! ### C11 -/
+
+/-- **C11: the order of `data` DOES depend on the order of the tells** (same map, same `npoints`, different `OrderedDict` order) -/
+theorem tell_order_shows_in_data_order :
+    (tellMany cfg (init cfg) [(5, 1), (6, 2)]).data = [(5, 1), (6, 2)] ∧
+    (tellMany cfg (init cfg) [(6, 2), (5, 1)]).data = [(6, 2), (5, 1)] ∧
+    tellMany cfg (init cfg) [(5, 1), (6, 2)] ≠ tellMany cfg (init cfg) [(6, 2), (5, 1)] := by decide
+
+/-- **C11 needs distinct points**: the same point told twice with different values - the LAST value wins, so the order matters -/
+theorem duplicate_tells_last_wins :
+    List.Perm [(5, 1), (5, 2)] [(5, 2), ((5, 1) : Nat × Nat)] ∧
+    (tellMany cfg (init cfg) [(5, 1), (5, 2)]).data = [(5, 2)] ∧
+    (tellMany cfg (init cfg) [(5, 2), (5, 1)]).data = [(5, 1)] ∧
+    aget (tellMany cfg (init cfg) [(5, 1), (5, 2)]).data 5 ≠ aget (tellMany cfg (init cfg) [(5, 2), (5, 1)]).data 5 :=
+  ⟨List.Perm.swap _ _ _, by decide, by decide, by decide⟩
+
+/-- the order-independence theorem is not vacuous: pending points and a filled stack at the start, an out-of-bounds point, a corner,
+a point on the stack and a re-evaluation among the tells -/
+example :
+    let s := tell cfg (ask cfg fresh2 (init cfg) 5 true).1 4 9
+    let xs : List (Nat × Nat) := [(1, 11), (200, 7), (5, 6), (4, 8), (50, 3)]
+    let ys : List (Nat × Nat) := [(50, 3), (4, 8), (5, 6), (200, 7), (1, 11)]
+    s.pending = [0, 1, 2, 3] ∧ s.stack = [(5, 40)] ∧ s.data = [(4, 9)] ∧ xs.Perm ys ∧ (keys xs).Nodup ∧
+    (tellMany cfg s xs).data = [(4, 8), (1, 11), (200, 7), (5, 6), (50, 3)] ∧
+    (tellMany cfg s ys).data = [(4, 8), (50, 3), (5, 6), (200, 7), (1, 11)] ∧
+    (tellMany cfg s xs).pending = [0, 2, 3] ∧ (tellMany cfg s ys).pending = [0, 2, 3] ∧
+    (tellMany cfg s xs).stack = [] ∧ (tellMany cfg s ys).stack = [] := by
+  refine ⟨by decide, by decide, by decide, ?_, by decide, by decide, by decide, by decide, by decide, by decide, by decide⟩
+  decide
+
+end Ex
+end L2D
